@@ -19,16 +19,19 @@ I(n) == VInt(n)
 S(x) == VStr(x)
 Same == [k |-> "same"]                       \* the very object that is element 1 (sharing)
 Family(f) ==
-  CASE f = "nums"  -> {I(1), I(2), VFrac(1, 2)}
-    [] f = "seqs"  -> {L(<<>>), L(<<I(1)>>), L(<<I(2), I(3)>>), Tu(<<I(4)>>), S("uv"), Same}
+  CASE f = "nums"  -> {I(0), I(1), I(2), VFrac(1, 2), VBool(FALSE)}
+    [] f = "seqs"  -> {L(<<>>), L(<<I(1)>>), L(<<I(2), I(3)>>), Tu(<<I(4)>>), S("uv"), S(""), Same}
     [] f = "deep"  -> {L(<<L(<<I(1)>>), L(<<I(2), I(3)>>)>>), L(<<Tu(<<I(4)>>), L(<<>>)>>),
                        Tu(<<L(<<I(2), I(3)>>), S("s")>>), L(<<L(<<L(<<I(1)>>)>>), L(<<L(<<I(2)>>), Tu(<<I(3)>>)>>)>>), Same}
     [] f = "dicts" -> {DDict(<<>>), DDict(<< <<S("a"), I(1)>> >>), DDict(<< <<S("b"), I(2)>>, <<S("a"), I(3)>> >>),
                        DODict(<< <<S("a"), I(5)>>, <<S("c"), I(6)>> >>), L(<<Tu(<<S("a"), I(9)>>)>>),
-                       L(<<L(<<S("c"), I(7)>>), S("uv")>>), Same}
+                       L(<<L(<<S("c"), I(7)>>), S("uv")>>), Same,
+                       \* keys that are equal but distinct (1 / True / 1.0) and keys with equal hashes (-1 / -2)
+                       DDict(<< <<I(1), S("a")>>, <<I(-1), I(1)>>, <<I(-2), I(2)>> >>),
+                       L(<<Tu(<<VBool(TRUE), S("b")>>), Tu(<<VFrac(1, 1), S("c")>>)>>)}
     [] f = "bad"   -> {I(1), L(<<I(1)>>), S("s"), VNone, DDict(<< <<S("a"), I(1)>> >>), Tu(<<L(<<I(1)>>), I(2)>>)}
     [] f = "keys"  -> {I(1), I(2), S("a"), S("uv"), Tu(<<I(4)>>)}             \* hashable: dict keys
-NonIterables == {I(5), VNone, S("uv"), DObj}
+NonIterables == {I(5), I(0), VNone, S("uv"), S(""), VBool(FALSE), DObj}
 
 \* ---- building the heap ------------------------------------------------------------------
 RECURSIVE Alloc(_, _), AllocSeq(_, _, _, _)
@@ -61,8 +64,9 @@ AllInits == NumInits \cup {"list", "tuple", "str", "dict", "odict", "seeded", "s
 SpecsOf(form) ==
   CASE form = "Fold"    -> {Sp("Fold", i, o, 1, FALSE) : i \in AllInits, o \in {"iadd", "add", "right"}}
                            \cup {Sp("Fold", i, "digits", 1, FALSE) : i \in NumInits}
+                           \cup {Sp("Fold", "shlist", "iadd", 1, FALSE)}
     [] form = "Sum"     -> {Sp("Sum", i, "iadd", 1, FALSE) : i \in NumInits \cup {"strx"}}
-    [] form = "Flatten" -> {Sp("Flatten", i, "iadd", 1, FALSE) : i \in {"list", "tuple", "int", "str", "seeded", "strx", "tup0"}}
+    [] form = "Flatten" -> {Sp("Flatten", i, "iadd", 1, FALSE) : i \in {"list", "tuple", "int", "str", "seeded", "strx", "tup0", "shlist"}}
                            \cup {Sp("Flatten", "lazy", "iadd", 1, TRUE)}
     [] form = "Merge"   -> {Sp("Merge", "dict", "update", 1, FALSE), Sp("Merge", "odict", "update", 1, FALSE),
                             Sp("Merge", "dict", "keepfirst", 1, FALSE), Sp("Merge", "list", "extend", 1, FALSE)}
@@ -100,33 +104,38 @@ Init ==
           /\ heap0 = t.h /\ root = t.v /\ wrap = "plain" /\ sp = [NoSpec EXCEPT !.sub = sub]
   /\ heap = heap0 /\ outs = <<>> /\ shown = <<>> /\ pred = <<>> /\ acc = VNone
 
+\* a shared init object is exercised where the fold cannot fail half-way (every element iterable)
+SharedOk == /\ sp.sub = "T" /\ GlomIterable(heap0, root)
+            /\ \A i \in 1..Len(HIter(heap0, root)) : HIterable(heap0, HIter(heap0, root)[i])
+
 \* one evaluation of the spec object: glom(root, spec)
 Evaluate ==
   /\ Len(outs) < 2
   /\ IF Len(outs) = 0
      THEN \E s \in AllSpecs : /\ sp' = [s EXCEPT !.sub = sp.sub]
                               /\ ~(s.form = "flatten" /\ s.levels = 0 /\ sp.sub # "T")
+                              /\ (s.init = "shlist" => SharedOk)
      ELSE sp' = sp
   /\ LET m == MEval(heap, root, sp', acc)
          o == [ok |-> m.ok, v |-> m.v, exc |-> m.exc, inits |-> m.inits, acc |-> m.acc, muts |-> m.muts]
      IN /\ heap' = m.h
         /\ outs' = Append(outs, o)
         /\ shown' = [e \in 1..(Len(outs) + 1) |-> Shown(m.h, IF e <= Len(outs) THEN outs[e] ELSE o)]
-        /\ pred' = Append(pred, LET p == RefShown(heap0, root, sp') IN
+        /\ pred' = Append(pred, LET p == RefShownK(heap0, root, sp', Len(outs) + 1) IN
                                  [ok |-> p.ok, v |-> p.v, exc |-> p.exc, inits |-> MinInits(heap0, root, sp')])
         /\ acc' = m.acc
   /\ UNCHANGED <<heap0, root, wrap>>
 Next == Evaluate
 
 \* ---- the laws, on every reachable state ---------------------------------------------------
-InvValue      == \A e \in 1..Len(outs) : LawValue(heap0, heap, root, sp, outs[e])
+InvValue      == \A e \in 1..Len(outs) : LawValue(heap0, heap, root, sp, outs[e], Len(outs))
 InvInits      == \A e \in 1..Len(outs) : LawInits(heap0, root, sp, outs[e])
 InvFrame      == LawFrame(heap0, heap)
 InvNoInputAcc == \A e \in 1..Len(outs) : LawNoInputAccumulator(heap0, outs[e])
 InvFoldError  == \A e \in 1..Len(outs) : LawFoldError(heap0, root, sp, outs[e])
 InvLazyEager  == \A e \in 1..Len(outs) : LawLazyIsEager(heap0, heap, root, sp, outs[e])
 InvIndependent ==
-  Len(outs) = 2 /\ outs[1].ok /\ outs[2].ok => LawIndependent(heap, Len(heap0), outs[1].v, outs[2].v)
+  sp.init # "shlist" /\ Len(outs) = 2 /\ outs[1].ok /\ outs[2].ok => LawIndependent(heap, Len(heap0), outs[1].v, outs[2].v)
 \* the harness sees exactly what the law was checked on
-InvShownIsPred == \A e \in 1..Len(shown) : shown[e] = [ok |-> pred[e].ok, v |-> pred[e].v, exc |-> pred[e].exc]
+InvShownIsPred == \A e \in 1..Len(shown) : sp.init = "shlist" \/ shown[e] = [ok |-> pred[e].ok, v |-> pred[e].v, exc |-> pred[e].exc]
 ====================================================================================
